@@ -7,7 +7,7 @@ EXTRA = ["'at every moment / inside every listener callback': listener call site
 
 
 def run(tier, seed):
-    return mc.run_check(PID, tier, seed, WHICH, "c04", EXTRA)
+    return mc.run_check(PID, tier, seed, WHICH, "c04", EXTRA, post=mc.d7_obligation, known_matcher=mc.d7_matcher)
 
 
 def replay(path):
